@@ -163,3 +163,67 @@ def _argmax(L, a, axis=None):
 
 
 METHODS[('Arr', 'argmax')] = lambda L, a, axis=None: _argmax(L, a, axis)
+
+
+# ---------------------------------------------------------------- numpy.random: explicit generator state
+RNG = z3.DeclareSort('RNG')
+RNG0 = z3.Const('rng_state_at_entry', RNG)                  # the unknown global state when the function is entered
+SEEDED = z3.Function('rng_seeded', z3.IntSort(), RNG)       # numpy.random.seed(s)
+RNG_NEXT = z3.Function('rng_next', RNG, RNG)                # state after one draw call
+RAND = z3.Function('rng_uniform', RNG, z3.IntSort(), R)     # t-th number of a rand(n) / uniform call in this state
+POISSON_DRAW = z3.Function('rng_poisson', RNG, R, I_)       # numpy.random.poisson(lam) in this state
+
+
+def rng_state(L):
+    return L.ctx.ghost.setdefault('rng', RNG0)
+
+
+def rng_advance(L):
+    L.ctx.ghost['rng'] = RNG_NEXT(rng_state(L))
+    L.ctx.ghost['rng_draws'] = L.ctx.ghost.get('rng_draws', 0) + 1
+
+
+@model('numpy.random.seed')
+def _np_seed(L, s=None):
+    if s is None:
+        L.ctx.ghost['rng'] = L.ctx.fresh('rng_os_entropy', RNG)
+        return None
+    L.ctx.ghost['rng'] = SEEDED(to_z3(s))
+    return None
+
+
+@model('numpy.random.rand')
+def _np_rand(L, *shape):
+    if len(shape) != 1:
+        raise Unsupported('rand of rank != 1')
+    st = rng_state(L)
+    n = shape[0]
+    if is_sym(n) and L.ctx.branch(to_z3(n) < 0):
+        raise PyRaise(builtin_exc('ValueError'), 'negative dimensions are not allowed')
+    t = z3.Int('t!rand')
+    L.ctx.fact(z3.ForAll([t], z3.And(RAND(st, t) >= 0, RAND(st, t) < 1), patterns=[RAND(st, t)]))
+    rng_advance(L)
+    a = Arr((n,), lambda ix: RAND(st, to_z3(ix[0])), 'float64')
+    a.ghost['rng_state'] = st
+    return a
+
+
+@model('numpy.random.uniform')
+def _np_uniform(L, low=0.0, high=1.0, size=None):
+    if size is not None or not (low in (0, 0.0) and high in (1, 1.0)):
+        raise Unsupported('uniform with size/range')
+    st = rng_state(L)
+    L.ctx.fact(z3.And(RAND(st, 0) >= 0, RAND(st, 0) < 1))
+    rng_advance(L)
+    return RAND(st, z3.IntVal(0))
+
+
+@model('numpy.random.poisson')
+def _np_poisson(L, lam=1.0, size=None):
+    if size is not None:
+        raise Unsupported('poisson with size')
+    st = rng_state(L)
+    v = POISSON_DRAW(st, to_real(lam))
+    L.ctx.fact(v >= 0)
+    rng_advance(L)
+    return v
